@@ -539,9 +539,29 @@ fn ar(b: bool) -> &'static str {
     if b { "A" } else { "R" }
 }
 
+/// every parsing entry point of the wire layer must agree with the inherent checked / unchecked parsers:
+/// Streamable::from_bytes and parse::<false> (checked), from_bytes_unchecked and parse::<true> (unchecked)
+fn wire_agrees<T: chia_traits::Streamable + PartialEq>(b: &[u8], checked: &Option<T>, unchecked: &Option<T>) -> Option<String> {
+    use chia_traits::Streamable;
+    let w_checked = <T as Streamable>::from_bytes(b).ok();
+    let w_unchecked = <T as Streamable>::from_bytes_unchecked(b).ok();
+    let p_checked = <T as Streamable>::parse::<false>(&mut std::io::Cursor::new(b)).ok();
+    let p_unchecked = <T as Streamable>::parse::<true>(&mut std::io::Cursor::new(b)).ok();
+    if &w_checked != checked || &p_checked != checked {
+        return Some("FAIL the wire parser (Streamable, untrusted) disagrees with the checked parser".into());
+    }
+    if &w_unchecked != unchecked || &p_unchecked != unchecked {
+        return Some("FAIL the wire parser (Streamable, trusted) disagrees with the unchecked parser".into());
+    }
+    None
+}
+
 fn o_pkenc(b: &[u8; 48]) -> String {
     let u = PublicKey::from_bytes_unchecked(b);
     let c = PublicKey::from_bytes(b);
+    if let Some(f) = wire_agrees::<PublicKey>(b, &c.clone().ok(), &u.clone().ok()) {
+        return f;
+    }
     if let Ok(p) = &c {
         match &u {
             Ok(q) if q == p => {}
@@ -574,6 +594,9 @@ fn o_pkenc(b: &[u8; 48]) -> String {
 fn o_sigenc(b: &[u8; 96]) -> String {
     let u = Signature::from_bytes_unchecked(b);
     let c = Signature::from_bytes(b);
+    if let Some(f) = wire_agrees::<Signature>(b, &c.clone().ok(), &u.clone().ok()) {
+        return f;
+    }
     if let Ok(p) = &c {
         match &u {
             Ok(q) if q == p => {}
